@@ -83,3 +83,13 @@ Proof.
     with (repeat 1 (S (S g0)) ++ hold (repeat P 10) (frame8n1 b) ++ [1]).
   now apply sw_rx_line.
 Qed.
+
+(* glue between recovery_phase and des_frame: on a line whose ten frame levels are held P = 2n clocks each, the recovered sample
+   instants (offset n + 1 + k*P from the falling edge) read exactly level k of the frame, provided n >= 2 *)
+Lemma sample_reads_level_lemma (n k : nat) b rest :
+  (2 <= n)%nat -> (k < 10)%nat ->
+  nth_error (hold (repeat (2 * n)%nat 10) (frame8n1 b) ++ rest) (n + 1 + k * (2 * n)) = nth_error (frame8n1 b) k.
+Proof.
+  intros Hn Hk. replace (n + 1 + k * (2 * n))%nat with (k * (2 * n) + (n + 1))%nat by lia.
+  change 10%nat with (length (frame8n1 b)) at 1. apply nth_hold; [lia | exact Hk].
+Qed.
